@@ -339,7 +339,9 @@ congruence<Number>::operator/(const congruence<Number> &o) const {
           else          top
     */
     if (o.m_a == 0) {
-      if (m_a % o.m_b == 0)
+      // Division truncates towards zero, so the formula only holds
+      // when the division is always exact.
+      if (m_a % o.m_b == 0 && m_b % o.m_b == 0)
         return congruence<Number>(m_a / o.m_b, m_b / o.m_b);
       else
         return congruence<Number>::top();
@@ -353,11 +355,12 @@ congruence<Number>::operator/(const congruence<Number> &o) const {
            where N = a'((b-b') div a') + b'
     */
     if (m_a == 0) {
-      Number n(o.m_a * (((m_b - o.m_b) / o.m_a) + o.m_b));
-      if (n > 0) {
-        return congruence<Number>(m_b / n, Number(0));
-      } else {
+      // the divisor ranges over infinitely many values of both signs:
+      // only 0 / d is known.
+      if (m_b == 0) {
         return congruence<Number>(Number(0), Number(0));
+      } else {
+        return congruence<Number>::top();
       }
     }
 
@@ -385,8 +388,10 @@ congruence<Number>::operator%(const congruence<Number> &o) const {
              else          top
     */
     if (o.m_a == 0) {
-      if (m_a % o.m_b == 0) {
-        return congruence<Number>(Number(0), m_b % o.m_b);
+      // the remainder takes the sign of the dividend, which is unknown
+      // unless the remainder is always zero.
+      if (m_a % o.m_b == 0 && m_b % o.m_b == 0) {
+        return congruence<Number>(Number(0), Number(0));
       } else {
         return congruence<Number>(gcd(m_a, o.m_b), m_b);
       }
@@ -400,16 +405,8 @@ congruence<Number>::operator%(const congruence<Number> &o) const {
          where N = a'((b-b') div a') + b'
     */
     if (m_a == 0) {
-      Number n(o.m_a * (((m_b - o.m_b) / o.m_a) + o.m_b));
-      if (n <= 0) {
-        return congruence<Number>(m_a, m_b);
-      } else if (m_b == n) {
-        return congruence<Number>(gcd(o.m_b, o.m_a), m_b);
-      } else if ((m_b / n) >= 2) {
-        return congruence<Number>(m_b, m_b);
-      } else {
-        CRAB_ERROR("unreachable");
-      }
+      // b - q*d with d in a'Z+b' is congruent to b modulo gcd(a',b')
+      return congruence<Number>(gcd(o.m_a, o.m_b), m_b);
     }
 
     /*
